@@ -320,7 +320,8 @@ class Ctx:
         with open(tmp, "w") as fh:
             json.dump(ev, fh, indent=1, default=str)
         os.replace(tmp, os.path.join(evdir, self.prop + ".json"))
-        shutil.rmtree(self.work, ignore_errors=True)
+        if not os.environ.get("VERIF_KEEP"):
+            shutil.rmtree(self.work, ignore_errors=True)
         if nv:
             for v in self.violations[:5]:
                 log("violation:", json.dumps(v, default=str)[:1500])
